@@ -253,6 +253,8 @@ def jump_unit(spec, exact, K, pre_tau=False, tag="C04", asserts=("walk",), lim_m
         c.reachable("_jump returned")
         c.prove(len(X) == n and len(Jm) == n - 1 and len(dT) == n - 1, "one state row per time, one counts row per step")
         c.prove(all_close(X[0], x_in, c), "path starts at the initial state")
+        c.prove(all_close(list(np.asarray(m._x0, dtype=object).ravel()), x_in, c) and all_close(list(np.asarray(x0, dtype=object).ravel()), x_in, c),
+                "the simulation modifies neither the model's stored initial state nor the caller's array (a second run starts from the same state)")
         c.prove(close(Tm[0], t0, c), "path starts at the initial time")
         Vn = m.vMat(x_in, t0)
         c.prove(np.asarray(Vn, dtype=object).shape == (S, E), "state-change matrix has shape (states, events)")
